@@ -973,6 +973,195 @@ def git_scenario(P, sc, d, rng):
 
 
 # =========================================================================== main
+# =========================================================================== multi-pack-index
+def job_midx(job, P):
+    """states of PackFmtMidx -> disagreements between write_midx / MultiPackIndex and the expected layout."""
+    import struct
+    from dulwich import midx as M
+    bad, n = [], 0
+    for st in job["states"]:
+        n += 1
+        firsts, offs, pids, oid = st["firsts"], st["offs"], st["pids"], st["oid"]
+        np_ = job["np"]
+        names = synth_names(firsts, oid)
+        packs = [("pack-%d.idx" % k, [(names[i], offs[i], (0x9E3779B1 * (i + 1)) & 0xFFFFFFFF)
+                                      for i in range(len(names)) if pids[i] == k]) for k in range(np_)]
+        key = {"firsts": firsts, "offs": offs, "pids": pids, "oid": oid, "state": dict(st)}
+        f = io.BytesIO()
+
+        def fail(clause, **kw):
+            bad.append(dict(key, clause=clause, **kw))
+        try:
+            M.write_midx(f, list(reversed(packs)), hash_algorithm=1 if oid == 20 else 2)
+        except Exception as e:
+            fail("MidxWriteRaises", exc=f"{type(e).__name__}: {e}"[:200])
+            continue
+        data = f.getvalue()
+        # ---- independent parse
+        try:
+            if data[:4] != b"MIDX" or data[4] != 1:
+                raise ValueError("signature/version")
+            nch, npk = data[6], struct.unpack(">L", data[8:12])[0]
+            table = []
+            for k in range(nch + 1):
+                cid, off = data[12 + 12 * k:16 + 12 * k], struct.unpack(">Q", data[16 + 12 * k:24 + 12 * k])[0]
+                table.append((cid, off))
+            if table[-1][0] != b"\x00\x00\x00\x00":
+                raise ValueError("chunk table has no terminator")
+            end = table[-1][1]
+            chunks = {}
+            for k in range(nch):
+                if not (12 + 12 * (nch + 1) <= table[k][1] <= table[k + 1][1] <= len(data)):
+                    raise ValueError(f"chunk {table[k][0]!r} at {table[k][1]} is out of order / out of the file")
+                chunks[table[k][0]] = data[table[k][1]:table[k + 1][1]]
+            nobj = len(names)
+            ooff = chunks[b"OOFF"]
+            if len(ooff) != 8 * nobj or len(chunks[b"OIDL"]) != oid * nobj:
+                raise ValueError(f"OOFF/OIDL size {len(ooff)}/{len(chunks[b'OIDL'])} for {nobj} objects")
+            got_names = [chunks[b"OIDL"][oid * i:oid * (i + 1)] for i in range(nobj)]
+            words = [struct.unpack(">LL", ooff[8 * i:8 * i + 8]) for i in range(nobj)]
+            loff = chunks.get(b"LOFF")
+            o64 = [struct.unpack(">Q", loff[8 * i:8 * i + 8])[0] for i in range(len(loff) // 8)] if loff is not None else []
+            fan = list(struct.unpack(">256L", chunks[b"OIDF"]))
+        except Exception as e:
+            fail("MidxUnparseable", exc=f"{type(e).__name__}: {e}"[:200])
+            continue
+        o32 = [x for (_pid, w) in words for x in (w >> 31, w & 0x7FFFFFFF)]
+        if npk != np_ or got_names != names or [pid for (pid, _w) in words] != pids:
+            fail("MidxNames", exc=f"packs {npk}, pack ids {[pid for (pid, _w) in words]}")
+        if fan != [sum(1 for nm in names if nm[0] <= b) for b in range(256)]:
+            fail("MidxFanout")
+        if o32 != st["o32"] or o64 != st["o64"] or (loff is not None) != (st["nchunks"] == 5) or nch != st["nchunks"]:
+            fail("MidxOffsetTables", exc=f"chunks {nch} OOFF (msb, low) {o32} LOFF {o64 if loff is not None else None}; expected "
+                                         f"chunks {st['nchunks']} OOFF {st['o32']} LOFF {st['o64']}")
+        if len(data) != st["len"] and len(data) != st["len"] - 20 + oid:
+            fail("MidxLength", exc=f"{len(data)} bytes, expected {st['len']}")
+        tail = data[end:]
+        if end > len(data) or tail not in (hashlib.sha1(data[:end]).digest(), hashlib.sha256(data[:end]).digest()):
+            fail("MidxTrailer", exc=f"terminator points at {end} of {len(data)}")
+        # ---- the implementation's reader
+        for ctor in ("contents", "file"):
+            try:
+                if ctor == "contents":
+                    mx = M.MultiPackIndex("multi-pack-index", contents=data, size=len(data))
+                else:
+                    pth = os.path.join(job["dir"], "multi-pack-index")
+                    with open(pth, "wb") as fh:
+                        fh.write(data)
+                    mx = M.load_midx(pth)
+                got = [mx.object_offset(nm) for nm in names]
+                want = [("pack-%d.idx" % pids[i], offs[i]) for i in range(len(names))]
+                if got != want:
+                    fail("Read:midx.object_offset", exc=f"{got} expected {want}")
+                ents = sorted(mx.iterentries())
+                if ents != sorted((names[i], "pack-%d.idx" % pids[i], offs[i]) for i in range(len(names))):
+                    fail("Entries:midx.iterentries", exc=f"{[(e[1], e[2]) for e in ents]}")
+                if len(mx) != len(names) or not all(nm in mx for nm in names):
+                    fail("Read:midx.contains")
+                mx.close()
+            except Exception as e:
+                fail("Read:midx.object_offset", exc=f"{ctor}: {type(e).__name__}: {e}"[:200])
+            if n % 16:
+                break       # the file-backed constructor on every 16th state
+    return {"n": n, "bad": bad, "nbad": len(bad)}
+
+
+# layouts of one pack (same objects, same name): (order, compression level, deltify)
+MIDX_LAYOUTS = {1: ("fwd", 0, False), 2: ("rev", 9, False), 3: ("fwd", -1, True), 4: ("mix", 1, False)}
+MIDX_READERS = ("get_raw", "get_raw-hex", "getitem", "contains", "contains_packed", "iter", "iterobjects_subset")
+
+
+def midx_store_blobs():
+    from dulwich.objects import Blob
+    return [Blob.from_string((b"line %d\n" % (i % 3)) * (50 + 37 * i) + b"tail %d" % i) for i in range(9)]
+
+
+def job_midxstore(job, P):
+    """histories of PackFmtMidxStore replayed on a real object directory; a fresh DiskObjectStore reads after the last step."""
+    from dulwich.object_store import DiskObjectStore
+    from dulwich.objects import Blob
+    out = []
+    blobs = midx_store_blobs()
+    expected = {b.id: b.as_raw_string() for b in blobs}
+
+    def ordered(kind):
+        if kind == "fwd":
+            return list(blobs)
+        if kind == "rev":
+            return list(reversed(blobs))
+        return blobs[1::2] + blobs[0::2]
+
+    for k, st in enumerate(job["states"]):
+        d = os.path.join(job["dir"], "s%d" % k)
+        objdir = os.path.join(d, "objects")
+        os.makedirs(os.path.join(objdir, "pack"))
+        os.makedirs(os.path.join(objdir, "info"))
+        base = None
+        res = {"hist": st["hist"], "layout": st["layout"], "midx": st["midx"], "failed": {}, "steps": 0}
+        try:
+            for op, arg in st["hist"]:
+                if op in ("pack", "repack"):
+                    order, level, deltify = MIDX_LAYOUTS[arg]
+                    if op == "pack":
+                        s = DiskObjectStore(objdir, pack_compression_level=level)
+                        pk = s.add_objects([(b, None) for b in ordered(order)])
+                        base = pk._basename
+                        s.close()
+                    if op == "repack" or deltify or order != "fwd":
+                        # another process writes the same objects under the same name with other options
+                        for ext in (".pack", ".idx"):
+                            os.chmod(base + ext, 0o644)
+                        with open(base + ".pack", "wb") as pf:
+                            entries, checksum = P.write_pack_objects(pf.write, [(b, None) for b in ordered(order)],
+                                                                     compression_level=level, deltify=deltify,
+                                                                     object_format=s.object_format)
+                        with open(base + ".idx", "wb") as xf:
+                            P.write_pack_index(xf, sorted((a, v[0], v[1]) for a, v in entries.items()), checksum)
+                elif op == "midx":
+                    s = DiskObjectStore(objdir)
+                    s.write_midx()
+                    s.close()
+                elif op == "dropmidx":
+                    os.remove(os.path.join(objdir, "pack", "multi-pack-index"))
+                res["steps"] += 1
+            res["midx_on_disk"] = os.path.exists(os.path.join(objdir, "pack", "multi-pack-index"))
+            if st["layout"]:
+                for reader in MIDX_READERS:
+                    rd = DiskObjectStore(objdir)
+                    try:
+                        for oid_, content in expected.items():
+                            try:
+                                if reader == "get_raw":
+                                    got = rd.get_raw(oid_)
+                                elif reader == "get_raw-hex":
+                                    from dulwich.objects import hex_to_sha
+                                    got = rd.get_raw(hex_to_sha(oid_))
+                                elif reader == "getitem":
+                                    o = rd[oid_]
+                                    got = (o.type_num, o.as_raw_string())
+                                elif reader == "contains":
+                                    got = (3, content) if oid_ in rd else "absent"
+                                elif reader == "contains_packed":
+                                    got = (3, content) if rd.contains_packed(oid_) else "absent"
+                                elif reader == "iter":
+                                    got = (3, content) if oid_ in set(rd) else "absent"
+                                else:
+                                    o = list(rd.iterobjects_subset([oid_]))
+                                    got = (o[0].type_num, o[0].as_raw_string()) if len(o) == 1 else f"{len(o)} objects"
+                                if got != (Blob.type_num, content):
+                                    res["failed"].setdefault(reader, f"{oid_.decode()[:8]}: " + (got if isinstance(got, str) else
+                                                             f"type {got[0]}, {len(got[1])} bytes, expected {len(content)}"))
+                            except Exception as e:
+                                res["failed"].setdefault(reader, f"{oid_.decode()[:8]}: {type(e).__name__}: {e}"[:160])
+                    finally:
+                        rd.close()
+        except Exception as e:
+            res["worker_error"] = "".join(traceback.format_exception(type(e), e, e.__traceback__))[-1200:]
+        out.append(res)
+        shutil.rmtree(d, ignore_errors=True)
+    return {"n": len(out), "results": out}
+
+
 def main():
     with open(sys.argv[1]) as f:
         job = json.load(f)
@@ -986,6 +1175,10 @@ def main():
         res = job_idx(job, P)
     elif kind == "gitpack":
         res = job_gitpack(job, P)
+    elif kind == "midx":
+        res = job_midx(job, P)
+    elif kind == "midxstore":
+        res = job_midxstore(job, P)
     else:
         raise SystemExit(f"unknown job kind {kind}")
     tmp = job["out"] + ".tmp"
